@@ -1,6 +1,8 @@
 import DimodProofs.Store
 import DimodProofs.Heap
 import DimodProofs.HeapCache
+import DimodProofs.CqmObs
+import Generated.CqmFixCopy
 
 /-! # C19 — copies and non-mutating variants are independent of the original
 
@@ -573,5 +575,60 @@ example : obs (pyEdit (copySharingDict (pyOther p0 0).1 0).1 2 .otherDirect (.co
 /-- … and likewise through a stored bound method -/
 example : obs (pyEdit (copySharingDict (pyEdit p0 0 (.fwd "scale") (.coeffs id)) 0).1 1 (.fwd "scale") (.coeffs fun _ => [9])).h 2 = ([9], [7, 8]) := by
   decide +kernel
+
+/-! ## r8f — the receiver of `fix_variables(…, inplace=False)`: what the source does with `self`
+
+`heap_cqm_copies_fresh` / `heap_cqm_calls_separate` model the non-mutating branch as `cqmRebuild` (allocate, write nothing that exists).
+That is justified by the branch making exactly two calls through `self` — `self.variables.index(v)` (a read) and the `const` C++
+`self.cppcqm.fix_variables(…)` — and no store; the lists are regenerated from `cyconstrained.pyx` / the header on every run
+(`harness/translators/cqm_fix_copy.py`), so a bookkeeping call on the receiver added to that branch (e.g. clearing the discrete markers
+as `fix_variable` does) breaks this file, and the harness then looks for the failing input (every observable of the receiver — `discrete`,
+`lhs.is_discrete()`, weights, penalties, bounds, vartypes, label orders, counts — before and after the call). -/
+section fix_copy_source
+example : Generated.CqmFixCopy.callsOnSelf = ["variables.index", "cppcqm.fix_variables"] := by decide +kernel
+example : Generated.CqmFixCopy.storesOnSelf = [] ∧ Generated.CqmFixCopy.cppFixVariablesIsConst = true := by decide +kernel
+end fix_copy_source
+
+/-! ## r8f — CQM histories at OBSERVATION level (`DimodProofs/CqmObs.lean`)
+
+`heap_cqm_histories_independent` states the edit-history property as an invariant (separation preserved, one-sided histories invisible).
+Here the same at the level of what is READ: every in-place edit acts on the observation `cobs` (objective, constraints in order —
+coefficients incl. markers / weights —, variables, constraint labels) as the function `CEdit.onObs`, whole edit histories fold over
+observations, and copy-producing calls made on the receiver anywhere in its life drop out of what it reads. -/
+section observation_level
+
+/-- one in-place edit (through `cqm.objective`, a constraint view incl. `mark_discrete` / `set_weight`, `add_variable` / relabels / bounds,
+    `relabel_constraints`, `add_constraint_from_iterable`, `remove_constraint`) of a well-formed CQM: what it reads afterwards is `onObs`
+    of what it read before — nothing else of the heap matters -/
+theorem heap_cqm_edit_observation (h : Heap) (d : Nat) (hg : CGood h d) (e : CEdit) :
+    cobs (e.run h d) d = e.onObs (cobs h d) :=
+  cedit_obs hg e
+
+/-- whole edit histories fold over the observation -/
+theorem heap_cqm_edit_history_observation (h : Heap) (d : Nat) (hg : CGood h d) (es : List CEdit) :
+    CGood (es.foldl (fun acc e => e.run acc d) h) d ∧
+    cobs (es.foldl (fun acc e => e.run acc d) h) d = es.foldl (fun ob e => e.onObs ob) (cobs h d) :=
+  cedits_obs hg es
+
+/-- **non-mutating calls are invisible along the whole life of the receiver**: interleave ANY copy-producing calls (`copy.deepcopy`,
+    `fix_variables(inplace=False)`, `relabel_variables` / `spin_to_binary` with `inplace=False` and any edits of the copy) with ANY
+    in-place edits of the receiver — at the end the receiver reads exactly what its own edits make of its first observation, as if
+    the calls had never been made -/
+theorem heap_cqm_calls_invisible_along_history (h : Heap) (d : Nat) (hg : CGood h d) (steps : List CStep) :
+    CGood (runCSteps h d steps) d ∧
+    cobs (runCSteps h d steps) d = (editsOf steps).foldl (fun ob e => e.onObs ob) (cobs h d) ∧
+    cobs (runCSteps h d steps) d = cobs ((editsOf steps).foldl (fun acc e => e.run acc d) h) d := by
+  have hcall : ∀ (h : Heap) (d : Nat) (c : CCall), CGood h d → CGood (c.run h d).1 d ∧ cobs (c.run h d).1 d = cobs h d :=
+    fun h d c hg => ⟨(heap_cqm_calls_separate h d hg c).1.1, (heap_cqm_calls_separate h d hg c).2⟩
+  obtain ⟨g, o⟩ := csteps_obs hcall hg steps
+  exact ⟨g, o, o.trans (cedits_obs hg (editsOf steps)).2.symm⟩
+
+/-- the hypotheses are met by the concrete CQM `hq0` (cy object at cell 7, see above): mark the constraint, fix-copy, add a constraint,
+    deep-copy, drop the first constraint — the receiver reads what its three edits alone give -/
+example : cobs (runCSteps hq0 7 [.edit (.constraint 0 (fun c => c ++ [1])), .call (.fixVariablesCopy id id id), .edit (.addConstraint [2] (· ++ [101])),
+      .call .deepcopy, .edit (.removeConstraint 0)]) 7 = ([4], [[2]], [7], [100, 101]) := by decide +kernel
+example : (editsOf [.edit (.constraint 0 (fun c => c ++ [1])), .call (.fixVariablesCopy id id id), .edit (.addConstraint [2] (· ++ [101])),
+      .call .deepcopy, .edit (.removeConstraint 0)]).foldl (fun ob e => e.onObs ob) (cobs hq0 7) = ([4], [[2]], [7], [100, 101]) := by decide +kernel
+end observation_level
 
 end C19
